@@ -473,8 +473,287 @@ func reuse(r *ev.Run) {
 	})
 }
 
+// histories (round 14): ONE long-lived Dialer and a HISTORY OF OUTCOMES. Every clause of the property speaks about one Dial: the
+// list of an attempt is the caller's, else the one of the HTTPS record that produced the address of THIS resolution, else the
+// PublicName bootstrap; the configs of a retry are exactly those of the rejection it answers. Nothing an earlier Dial met - its
+// lists, the retry configs a server handed out, whether its retry went well - is among these sources. So call 1 goes through every
+// outcome plan the check knows (ok / error / rejection without retry configs / rejection with retry configs followed by ok, error,
+// a rejection without and with configs), alone or as the second comma element after a target that fails, and call 2 then reaches
+// the same ip:port (same host, another host behind the same address with another list, a host without a list), the same IP on
+// another port, or another address, with every caller config and with outcome plans of its own whose rejections carry OTHER retry
+// configs than call 1's. Oracle: the DialFunc argument log of call 2 (address, ServerName, list - PublicName bootstrap lists by
+// the public name they carry, since their key is random) and its success are exactly those of a FRESH Dialer with the same
+// settings that makes call 2 alone; the caller's tls.Config is unchanged after each call. Invocations are attributed to their
+// call through a value in the caller's context, so nothing depends on timing.
+type hcall struct {
+	Addr string `json:"addr"`
+	Cfg  int    `json:"caller_config"` // 0 nil, 1 plain, 2 own ECH list, 3 own ECH list and ServerName
+	Plan []int  `json:"attempt_outcomes"`
+}
+
+type hcallKey struct{}
+
+type hcallState struct {
+	mu         sync.Mutex
+	plan       []int
+	retry      [2][]byte
+	rejections int
+	log        []string
+	lists      [][]byte
+}
+
+func histListLabel(l []byte) string {
+	switch {
+	case l == nil:
+		return "none"
+	case len(l) == 0:
+		return "empty"
+	case string(l) == string(listE1):
+		return "record-list-E1"
+	case string(l) == string(listE2):
+		return "record-list-E2"
+	case string(l) == string(listCaller):
+		return "caller's-list"
+	case string(l) == string(listR1):
+		return "retry-configs-R1"
+	case string(l) == string(listR2):
+		return "retry-configs-R2"
+	}
+	return "list-for-public-name:" + publicNameOf(l)
+}
+
+func histDialer(res *ech.Resolver, req bool, pn string) *ech.Dialer[*fakeConn] {
+	d := &ech.Dialer[*fakeConn]{RequireECH: req, PublicName: pn, Resolver: res, MaxConcurrency: 1, ConcurrencyDelay: time.Millisecond, Timeout: 10 * time.Second}
+	d.DialFunc = func(ctx context.Context, network, addr string, tc *tls.Config) (*fakeConn, error) {
+		st, _ := ctx.Value(hcallKey{}).(*hcallState)
+		if st == nil {
+			return nil, errors.New("attempt outside every call of this check")
+		}
+		st.mu.Lock()
+		defer st.mu.Unlock()
+		i := len(st.log)
+		sn, label := "", "<nil tls.Config>"
+		var l []byte
+		if tc != nil {
+			sn = tc.ServerName
+			if tc.EncryptedClientHelloConfigList != nil {
+				l = append([]byte{}, tc.EncryptedClientHelloConfigList...)
+			}
+			label = histListLabel(l)
+		}
+		st.log = append(st.log, fmt.Sprintf("%s %s ServerName=%q list=%s", network, addr, sn, label))
+		st.lists = append(st.lists, l)
+		if ctx.Err() != nil {
+			return nil, ctx.Err()
+		}
+		o := oErr
+		if i < len(st.plan) {
+			o = st.plan[i]
+		}
+		switch o {
+		case oOK:
+			return &fakeConn{i}, nil
+		case oErr:
+			return nil, errors.New("connection refused")
+		case oRejectNoRetry:
+			return nil, fmt.Errorf("handshake: %w", &tls.ECHRejectionError{})
+		}
+		rej := &tls.ECHRejectionError{RetryConfigList: append([]byte{}, st.retry[st.rejections%2]...)}
+		st.rejections++
+		if i%2 == 1 {
+			return nil, errors.Join(errors.New("dial: first transport failed"), fmt.Errorf("handshake: %w", rej))
+		}
+		return nil, fmt.Errorf("handshake: %w", rej)
+	}
+	return d
+}
+
+// histCall makes the n-th call (0-based) of a history on d; the server's retry configs differ from call to call.
+func histCall(d *ech.Dialer[*fakeConn], c hcall, n int) (st *hcallState, ok bool, mutated string) {
+	st = &hcallState{plan: c.Plan, retry: [2][]byte{listR1, listR2}}
+	if n%2 == 1 {
+		st.retry = [2][]byte{listR2, listR1}
+	}
+	var caller, before *tls.Config
+	if c.Cfg > 0 {
+		caller = &tls.Config{MinVersion: tls.VersionTLS12, NextProtos: []string{"h2"}}
+		if c.Cfg >= 2 {
+			caller.EncryptedClientHelloConfigList = append([]byte{}, listCaller...)
+		}
+		if c.Cfg == 3 {
+			caller.ServerName = "caller-name.example"
+		}
+		before = caller.Clone()
+	}
+	_, err := d.Dial(context.WithValue(context.Background(), hcallKey{}, st), "tcp", c.Addr, caller)
+	if before != nil && (before.ServerName != caller.ServerName || !reflect.DeepEqual(before.EncryptedClientHelloConfigList, caller.EncryptedClientHelloConfigList) ||
+		!reflect.DeepEqual(before.NextProtos, caller.NextProtos) || before.MinVersion != caller.MinVersion) {
+		mutated = fmt.Sprintf("ServerName %q -> %q, ECH list %s -> %s", before.ServerName, caller.ServerName, histListLabel(before.EncryptedClientHelloConfigList), histListLabel(caller.EncryptedClientHelloConfigList))
+	}
+	st.mu.Lock()
+	defer st.mu.Unlock()
+	st.log = append([]string{}, st.log...)
+	return st, err == nil, mutated
+}
+
+func histories(r *ev.Run) {
+	zone := func(name string, t uint16) dohmem.Answer {
+		switch fmt.Sprintf("%s/%d", name, t) {
+		case "ha.example/1":
+			return dohmem.Answer{Records: []dnsref.RR{a("ha.example", 192, 0, 2, 50)}}
+		case "hb.example/1":
+			return dohmem.Answer{Records: []dnsref.RR{a("hb.example", 192, 0, 2, 50)}}
+		case "hc.example/1":
+			return dohmem.Answer{Records: []dnsref.RR{a("hc.example", 192, 0, 2, 50)}}
+		case "hd.example/1":
+			return dohmem.Answer{Records: []dnsref.RR{a("hd.example", 192, 0, 2, 51)}}
+		case "he.example/1":
+			return dohmem.Answer{Records: []dnsref.RR{a("he.example", 192, 0, 2, 50)}}
+		case "ha.example/65":
+			return dohmem.Answer{Records: []dnsref.RR{https("ha.example", 1, "", listE1, 0)}}
+		case "hb.example/65":
+			return dohmem.Answer{Records: []dnsref.RR{https("hb.example", 1, "", listE2, 0)}}
+		case "hd.example/65":
+			return dohmem.Answer{Records: []dnsref.RR{https("hd.example", 1, "", listE1, 0)}}
+		case "he.example/65": // the shared IP on another port
+			return dohmem.Answer{Records: []dnsref.RR{https("he.example", 1, "", listE2, 8443)}}
+		}
+		return dohmem.Answer{}
+	}
+	type setting struct {
+		req bool
+		pn  string
+	}
+	settings := []setting{{false, ""}, {true, ""}, {false, "p.example"}, {true, "p.example"}}
+	plans := [][]int{{oOK}, {oErr}, {oRejectNoRetry}, {oRejectRetry, oOK}, {oRejectRetry, oErr}, {oRejectRetry, oRejectNoRetry}, {oRejectRetry, oRejectRetry}}
+	plans2, cfgs1 := plans, []int{0, 1, 2, 3}
+	var calls1, calls2 []hcall
+	for _, addr := range []string{"ha.example:443", "hc.example:443", "hd.example:443, ha.example:443"} {
+		for _, cfg := range cfgs1 {
+			for _, p := range plans {
+				if strings.Contains(addr, ",") {
+					p = append([]int{oErr}, p...) // the first element's target fails: the shared address is reached as a later target
+				}
+				calls1 = append(calls1, hcall{addr, cfg, p})
+			}
+		}
+	}
+	for _, addr := range []string{"ha.example:443", "hb.example:443", "hc.example:443", "hd.example:443", "he.example:443"} {
+		for cfg := 0; cfg < 4; cfg++ {
+			for _, p := range plans2 {
+				calls2 = append(calls2, hcall{addr, cfg, p})
+			}
+		}
+	}
+	type outcome struct {
+		log []string
+		ok  bool
+	}
+	run := func(res *ech.Resolver, st setting, c1 *hcall, c2 hcall) (o outcome, lists1 [][]byte, mutated string) {
+		d := histDialer(res, st.req, st.pn)
+		n := 0
+		if c1 != nil {
+			s1, _, m1 := histCall(d, *c1, 0)
+			if m1 != "" {
+				return o, nil, "call 1: " + m1
+			}
+			lists1, n = s1.lists, 1
+		}
+		s2, ok, m2 := histCall(d, c2, 1)
+		if m2 != "" {
+			mutated = fmt.Sprintf("call %d: %s", n+1, m2)
+		}
+		return outcome{s2.log, ok}, lists1, mutated
+	}
+	// how call 2 on the used Dialer differs from call 2 on a fresh one
+	diff := func(got, want outcome, lists1 [][]byte) (key, what string) {
+		for i := 0; i < len(got.log) && i < len(want.log); i++ {
+			if got.log[i] == want.log[i] {
+				continue
+			}
+			g, w := strings.SplitN(got.log[i], " list=", 2), strings.SplitN(want.log[i], " list=", 2)
+			key = "dialer-history:attempt-differs-from-a-fresh-dialer's"
+			if g[0] == w[0] {
+				key = "dialer-history:ech-list-differs-from-a-fresh-dialer's"
+				for _, l := range lists1 {
+					if l != nil && histListLabel(l) == g[1] {
+						key = "dialer-history:ech-list-of-an-earlier-dial"
+					}
+				}
+			}
+			return key, fmt.Sprintf("attempt %d of call 2 is [%s]; a fresh Dialer's is [%s]", i+1, got.log[i], want.log[i])
+		}
+		if len(got.log) != len(want.log) {
+			return "dialer-history:attempt-count-differs-from-a-fresh-dialer's", fmt.Sprintf("call 2 makes %d attempt(s) %v; on a fresh Dialer it makes %d %v", len(got.log), got.log, len(want.log), want.log)
+		}
+		if got.ok != want.ok {
+			return "dialer-history:result-differs-from-a-fresh-dialer's", fmt.Sprintf("call 2 succeeded=%v; on a fresh Dialer succeeded=%v (same attempts %v)", got.ok, want.ok, want.log)
+		}
+		return "", ""
+	}
+	type item struct{ si, c1 int }
+	var items []item
+	for si := range settings {
+		for c1 := range calls1 {
+			items = append(items, item{si, c1})
+		}
+	}
+	nShard := 16
+	var n int64
+	var mu sync.Mutex
+	enum.ParallelFor(nShard, func(sh int) {
+		host := fmt.Sprintf("doh-c17-hist-%d.test", sh)
+		mux.Server(host).Zone = zone
+		res, _ := ech.NewResolver("https://" + host + "/dns-query")
+		fresh := map[[2]int]outcome{}
+		var cnt int64
+		for ii := sh; ii < len(items); ii += nShard {
+			it := items[ii]
+			st, c1 := settings[it.si], calls1[it.c1]
+			for c2i, c2 := range calls2 {
+				want, have := fresh[[2]int{it.si, c2i}]
+				if !have {
+					var m string
+					want, _, m = run(res, st, nil, c2)
+					if m != "" {
+						r.Violation("caller-config-mutated", "caller's tls.Config changed: "+m, map[string]any{"require_ech": st.req, "public_name": st.pn, "call": c2})
+					}
+					fresh[[2]int{it.si, c2i}] = want
+				}
+				replay := map[string]any{"require_ech": st.req, "public_name": st.pn, "call_1": c1, "call_2": c2}
+				got, lists1, m := run(res, st, &c1, c2)
+				cnt++
+				if m != "" {
+					r.Violation("caller-config-mutated", "one Dialer, two calls; caller's tls.Config changed: "+m, replay)
+				}
+				if key, what := diff(got, want, lists1); key != "" {
+					// reported only if the same history fails the same way each time
+					same := 1
+					for i := 0; i < 4; i++ {
+						g2, l2, _ := run(res, st, &c1, c2)
+						w2, _, _ := run(res, st, nil, c2)
+						if k2, _ := diff(g2, w2, l2); k2 == key {
+							same++
+						}
+					}
+					if same == 5 {
+						r.Violation(key, fmt.Sprintf("one Dialer (RequireECH=%v PublicName=%q); call 1 %+v, then call 2 %+v: %s", st.req, st.pn, c1, c2, what), replay)
+					} else {
+						r.Add("unstable", 1)
+					}
+				}
+				r.Eval(fmt.Sprintf("history:%d/%d/%d", it.si, it.c1, c2i), fmt.Sprintf("history: call-2 attempts=%d success=%v", len(got.log), got.ok))
+			}
+		}
+		mu.Lock()
+		n += cnt
+		mu.Unlock()
+	})
+	r.Set("outcome_histories", n)
+}
+
 func Run(r *ev.Run) {
-	r.Rule("E1 x E2: resolution worlds {no HTTPS; one record with/without ECH; a preferred record whose target has no address followed by one for the origin; two records with ECH on first/second/both (different targets, ports, lists); alias to a service record with ECH; target with own address} x caller config {nil, plain, ServerName set, ECH list set, both} x RequireECH x PublicName {'', p.example} x address {host:port, IP literal, two comma-separated hosts (the second on port 8443), two hosts with blanks around the comma the second of which has no port}; per scenario EVERY tree of attempt outcomes {ok, error, ECH rejection without retry configs, rejection with retry configs} at every DialFunc invocation (deviation bound: unlimited quick up to depth of the run; MaxConcurrency 1 so that invocations are sequential). Oracle on the argument log of DialFunc. distinct = distinct (scenario, outcome vector)")
+	r.Rule("E1 x E2: resolution worlds {no HTTPS; one record with/without ECH; a preferred record whose target has no address followed by one for the origin; two records with ECH on first/second/both (different targets, ports, lists); alias to a service record with ECH; target with own address} x caller config {nil, plain, ServerName set, ECH list set, both} x RequireECH x PublicName {'', p.example} x address {host:port, IP literal, two comma-separated hosts (the second on port 8443), two hosts with blanks around the comma the second of which has no port}; per scenario EVERY tree of attempt outcomes {ok, error, ECH rejection without retry configs, rejection with retry configs} at every DialFunc invocation (deviation bound: unlimited quick up to depth of the run; MaxConcurrency 1 so that invocations are sequential). Oracle on the argument log of DialFunc. Histories on ONE Dialer: every sequence of <= 3 Dials over changed settings; call 1 with every outcome plan (alone or after a failing target) followed by call 2 to the same ip:port / the same IP on another port / another address x caller config x outcome plan, whose argument log must be that of a fresh Dialer making call 2 alone. distinct = distinct (scenario, outcome vector)")
 	r.Assume("expected per-address ECH lists and the set of dialled addresses are written by hand per world from RFC 9460 (independent of ResolveResult.Targets)", "real goroutines of Dial run outside a scheduler; MaxConcurrency=1 makes the invocation log sequential; a failing execution is re-run 5 times and reported only if it fails each time")
 	muxOnce.Do(func() { dns.VerifRoundTripper = mux })
 	ws := worlds()
@@ -555,6 +834,7 @@ func Run(r *ev.Run) {
 	r.Set("executions", execs)
 	r.Set("outcome_choice_points", points)
 	reuse(r)
+	histories(r)
 	// supplementary and sampled; reported separately, never counted as exploration: the DialFunc that NewDialer installs (which
 	// the scenarios above replace by a fake) called concurrently with different TLS configs shares nothing between attempts
 	racepass.Run(r, "./checks/c17/racepass/", "concurrent attempts of the Dialer that NewDialer returns", "8 goroutines x 40 attempts, each with its own tls.Config, against a loopback listener")
